@@ -68,7 +68,7 @@ def rule_async(rep, tname, sm):
                 bound = vals
         except TypeError:
             ok = False
-    rep.ob(R, "%s::output_delay" % tname, ok,
+    rep.ob(R, "%s::output_delay" % tname + ("" if ok else "/residual=%s" % str(res).replace(" ", "")), ok,
            "output_delay()/ratio = %s input samples; start position p0 = %s; %s; residual output_delay/ratio + p0 + c = %s (must vanish up to one sample%s). "
            "The reported delay does not match where the stream actually starts." % (sp.simplify(D / ratio), p0, c_txt, res, (", values %s" % bound) if bound else ""),
            loc(fn), sample={"type": tname, "reported_over_ratio": str(sp.simplify(D / ratio)), "p0": str(p0), "centre": str(c), "residual": str(res)})
